@@ -11,7 +11,7 @@ import (
 	"testing"
 )
 
-func TestVerifC03(t *testing.T) {
+func TestVerifC03Core(t *testing.T) {
 	rec := newRec(t, "C03")
 	defer rec.finish(t)
 	// "without any data being lost and without unbounded buffering"
@@ -129,5 +129,12 @@ func TestVerifC03(t *testing.T) {
 			rec.sample("stalled-reader", 3, scenarioBrief(&sc))
 		}
 	})
+}
+
+func TestVerifC03Sess(t *testing.T) {
+	rec := newRec(t, "C03")
+	defer rec.finish(t)
+	rec.alsoOwn = []string{"C01", "C04"}
+	var caseIdx int64 = 1 << 32
 	c03SessionPart(t, rec, &caseIdx)
 }
